@@ -13,6 +13,7 @@ import Qentem.Proofs.NumToStrDefaultRound
 import Qentem.Proofs.NumToStrFixedRound
 import Qentem.Proofs.NumToStrDefaultGe1
 import Qentem.Proofs.NumToStrDefaultFrac
+import Qentem.Proofs.NumToStrFixedLt1
 /-! C10 — number to text equals the reference formatting for every value and precision.
 
 Model: `Qentem.NumToStr` (transcription of `Digit.hpp`), reference: `Qentem.FmtSpec` (ISO C
@@ -368,6 +369,31 @@ example : realToString f64 [] 0x4023FFF2E48E8A72 3 fmtDefault = .ok [49, 48] := 
 example : realToString f64 [] 0x412E847F00000000 6 fmtDefault = .ok [49, 101, 43, 48, 54] := by decide +kernel
 example : realToString f64 [] 0x400921F9F01B866E 3 fmtDefault = .ok [51, 46, 49, 52] := by decide +kernel
 example : realToString f64 [] 0x3FF8000000000000 17 fmtDefault = .ok [49, 46, 53] := by decide +kernel
+
+/-- `format_eq_spec_fixed_all`: **Fixed (`%.{p}f`) and SemiFixed for every double** — every one of the 2^64 bit
+patterns (zeros, subnormals, normals of any magnitude, infinities, NaNs), every precision ≤ 40, after any stream
+contents.  This is the `Fixed`/`SemiFixed` half of the double part of `FormatEqSpec`, with no exception.  Below
+one the pipeline produces `estimate + p + 1` fractional digits exactly, rounds half-even at the `p`-th one and
+lays the result out as `0.0…0ddd`, `0`/`0.000` (everything rounded away) or `1`/`1.000` (carry into the units). -/
+theorem format_eq_spec_fixed_all (pre : List Nat) (bits p f : Nat) (hf : f = 1 ∨ f = 2) (hp : p ≤ 40) :
+    realToString f64 pre bits p f = .ok (pre ++ FmtSpec.format64 bits p (specFmt f)) := by
+  by_cases hs : Special64 bits
+  · exact special_values.1 pre bits p f hs (by omega)
+  · unfold Special64 at hs
+    have hfin : (bits / 2 ^ 52) % 2 ^ 11 ≠ 2 ^ 11 - 1 := fun h => hs (Or.inl h)
+    have hnz : (bits / 2 ^ 52) % 2 ^ 11 ≠ 0 ∨ bits % 2 ^ 52 ≠ 0 := by
+      by_contra hc
+      simp only [not_or, ne_eq, not_not] at hc
+      exact hs (Or.inr hc)
+    exact Qentem.Proofs.NumToStr.fixed_finite_64 pre bits p f hf hp hfin hnz
+
+/-- tests (kernel evaluation): 0.05 Fixed 1 → 0.1 (the stored value is above the tie); 0.000123456 Fixed 5;
+0.96 Fixed 1 → 1.0 (carry into the units); 0.04 Fixed 1 → 0.0; smallest subnormal SemiFixed 3 → 0 -/
+example : realToString f64 [] 0x3FA999999999999A 1 fmtFixed = .ok [48, 46, 49] := by decide +kernel
+example : realToString f64 [] 0x3F202E7EF70994DD 5 fmtFixed = .ok [48, 46, 48, 48, 48, 49, 50] := by decide +kernel
+example : realToString f64 [] 0x3FEEB851EB851EB8 1 fmtFixed = .ok [49, 46, 48] := by decide +kernel
+example : realToString f64 [] 0x3FA47AE147AE147B 1 fmtFixed = .ok [48, 46, 48] := by decide +kernel
+example : realToString f64 [] 0x0000000000000001 3 fmtSemiFixed = .ok [48] := by decide +kernel
 
 /-- `format_eq_spec_partial`: `FormatEqSpec` restricted to the special classes.  The rest — every
 finite non-zero value — is open; see `notes/design-numtostr.md`. -/
